@@ -597,3 +597,63 @@ def rule_TW1(ctx, files=None):
                          (name, c, f.loc(v[True][0]), f.loc(v[False][0])))
     res.analysed.update({'fabs_comparisons': ncmp})
     return res, ncmp
+
+
+def rule_ONE1(ctx, files=None):
+    res = RuleResult('ONE1', 'two-sided guard on a signed angular difference: a variable holding the result of Math::AngDiff '
+                             '(range [-180, 180]) that has not been folded to its magnitude is not compared with a positive '
+                             'bound on one side only (`dlon > 60` without `dlon < -60` or fabs)')
+    nvars = 0
+    seen = set()
+    for f in sorted(ctx.lib_fns(), key=lambda x: (x.file, x.line)):
+        if not _in(f, files) or f.d.get('body', -1) < 0 or (f.file, f.line, f.name) in seen:
+            continue
+        seen.add((f.file, f.line, f.name))
+        src = {}                 # decl -> (name, line of the AngDiff assignment)
+        for i, n in f.all_nodes():
+            if n['k'] == 'DeclStmt':
+                for d in n['decls']:
+                    if d.get('init', -1) >= 0 and (f.nodes[f.strip_casts(d['init'])].get('callee') or {}).get('name') == 'AngDiff':
+                        src[d['d']] = (d['name'], d.get('line', n.get('l', 0)))
+            elif n['k'] == 'BinaryOperator' and n.get('op') == '=':
+                ln, rn = f.nodes[f.strip_casts(n['ch'][0])], f.nodes[f.strip_casts(n['ch'][1])]
+                if ln['k'] == 'DeclRefExpr' and (rn.get('callee') or {}).get('name') == 'AngDiff':
+                    src[ln['d']] = (ln.get('name'), n.get('l', 0))
+        for d, (name, line) in sorted(src.items(), key=lambda kv: kv[1][1]):
+            # folded to a magnitude (v *= sign, v = fabs(v), v = -v under a sign test)?
+            folded = False
+            sides = {'+': [], '-': []}       # comparisons with a bound on the positive / negative side
+            for i, n in f.all_nodes():
+                if n['k'] in ('BinaryOperator', 'CompoundAssignOperator') and n.get('op') in ('*=', '='):
+                    ln = f.nodes[f.strip_casts(n['ch'][0])]
+                    if ln['k'] == 'DeclRefExpr' and ln.get('d') == d and n.get('l', 0) > line:
+                        if n['op'] == '*=' or (f.nodes[f.strip_casts(n['ch'][1])].get('callee') or {}).get('name') in ('fabs', 'abs'):
+                            folded = True
+                if n['k'] == 'BinaryOperator' and n.get('op') in ('<', '<=', '>', '>='):
+                    for side in (0, 1):
+                        a = f.nodes[f.strip_casts(n['ch'][side])]
+                        o = f.nodes[f.strip_casts(n['ch'][1 - side])]
+                        if a['k'] != 'DeclRefExpr' or a.get('d') != d or 'cv' not in o:
+                            continue
+                        try:
+                            c = int(o['cv'])
+                        except ValueError:
+                            continue
+                        if c == 0:
+                            continue                  # a sign test
+                        op = n['op'] if side == 0 else {'<': '>', '<=': '>=', '>': '<', '>=': '<='}[n['op']]
+                        if op in ('>', '>=') and c > 0:
+                            sides['+'].append(i)
+                        elif op in ('<', '<=') and c < 0:
+                            sides['-'].append(i)
+            if folded or not (sides['+'] or sides['-']):
+                continue
+            nvars += 1
+            ok = bool(sides['+']) == bool(sides['-'])
+            res.ob(ok, {'fn': f.q, 'variable': name, 'at': f.loc(i)})
+            if not ok:
+                at = (sides['+'] or sides['-'])[0]
+                res.fail(f.q, name, f.loc(at), '%s = Math::AngDiff(..) lies in [-180, 180] but is bounded on the %s side only at %s'
+                         % (name, 'positive' if sides['+'] else 'negative', f.loc(at)))
+    res.analysed['signed_differences_with_a_bound'] = nvars
+    return res, nvars
